@@ -292,7 +292,11 @@ func (m *Machine) call(fn *ssa.Function, args []Val, free []Val) (ret Val) {
 	depth0, stack0 := m.depth, len(m.callStack)
 	m.depth++
 	if m.depth > m.maxDepth {
-		m.incon("unwinding: call depth exceeded in " + name)
+		tail := m.callStack
+		if len(tail) > 12 {
+			tail = tail[len(tail)-12:]
+		}
+		m.incon("unwinding: call depth exceeded in " + name + " (innermost frames: " + strings.Join(tail, " > ") + ")")
 	}
 	m.callStack = append(m.callStack, fn.Name())
 	fr := &frame{fn: fn, env: make(map[ssa.Value]Val, 16), free: free}
